@@ -472,6 +472,48 @@ fn check_onehop(r: &mut Rng, mon: &mut Mon) {
                     }
                 }
             }
+            // the same one-hop path behind the generic wrappers (DpPath model, ScionPath):
+            // a refused reversal must leave the operand as it was
+            {
+                let mut dp = DpPath::OneHop(model_before.clone());
+                let snap = dp.clone();
+                match catch(|| dp.try_reverse().is_ok()) {
+                    Err(pn) => mon.violation(format!("panic:DpPath::try_reverse:{}", pn.site()), pn.0, cj.clone()),
+                    Ok(false) => {
+                        mon.count("onehop_wrapper_reverse_err");
+                        if dp != snap {
+                            mon.violation("non-atomic:DpPath::try_reverse", "one-hop DpPath changed although try_reverse returned Err", cj.clone());
+                        }
+                    }
+                    Ok(true) => {
+                        mon.count("onehop_wrapper_reverse_ok");
+                        if !matches!(dp, DpPath::Standard(_)) || catch(|| dp.try_encode_to_vec().is_ok()).ok() != Some(true) {
+                            mon.violation("wrong-result:DpPath::try_reverse:onehop", "a reversed one-hop path is not an encodable standard path", cj.clone());
+                        }
+                    }
+                }
+                let src = IsdAsn::from_u64(0x0001_ff00_0000_0110);
+                let dst = IsdAsn::from_u64(0x0002_ff00_0000_0220);
+                let made = catch(|| {
+                    let (v, _) = OneHopPathView::try_from_slice(&bytes).expect("32 bytes");
+                    ScionPath::new(src, dst, ScionDpPathView::OneHop(v.clone()), None, None)
+                });
+                if let Ok(sp0) = made {
+                    let mut sp = sp0.clone();
+                    match catch(|| sp.try_reverse().is_ok()) {
+                        Err(pn) => mon.violation(format!("panic:ScionPath::try_reverse:{}", pn.site()), pn.0, cj.clone()),
+                        Ok(false) if sp != sp0 => mon.violation("non-atomic:ScionPath::try_reverse", "one-hop ScionPath changed although try_reverse returned Err", cj.clone()),
+                        Ok(true) if sp.src_ia() != dst || sp.dst_ia() != src => mon.violation("scionpath-reverse-endpoints", "src/dst not swapped (one-hop)", cj.clone()),
+                        Ok(_) => {}
+                    }
+                    // the consuming form hands the original back on failure
+                    match catch(|| sp0.clone().try_into_reversed()) {
+                        Err(pn) => mon.violation(format!("panic:ScionPath::try_into_reversed:{}", pn.site()), pn.0, cj.clone()),
+                        Ok(Err((back, _))) if back != sp0 => mon.violation("non-atomic:ScionPath::try_into_reversed", "the path handed back with the error differs from the original", cj.clone()),
+                        Ok(_) => {}
+                    }
+                }
+            }
             // expiry: earliest hop expiry, saturating like the standard path (reference)
             let rel = |e: u8| ((e as u64 + 1) * 3375) / 10;
             let want = (info.timestamp as u64 + rel(hops[0].exp.min(hops[1].exp))).min(u32::MAX as u64) as u32;
@@ -497,6 +539,7 @@ pub fn run(args: &Args, mon: &mut Mon) -> (String, Vec<&'static str>) {
     mon.floor("reverse_ok", 100);
     mon.floor("reverse_err", 100);
     mon.floor("onehop_cases", 100);
+    mon.floor("onehop_wrapper_reverse_err", 10);
     mon.floor("agreement_domain_cases", 100);
 
     if let Some(path) = &args.replay {
